@@ -15,7 +15,7 @@ func init() {
 var badCloseCodes = []int{0, 1, 999, 1004, 1005, 1006, 1015, 1016, 1100, 2000, 2999, 5000, 6000, 65535}
 
 // genViolation draws one violating frame. inMsg: a fragmented message is open.
-func genViolation(r *PRNG, comp, inMsg bool) SItem {
+func genViolation(r *PRNG, comp, inMsg bool, openLen ...int) SItem {
 	dataOp := byte(r.Range(1, 2))
 	contOp := byte(0)
 	natural := dataOp // an opcode that would be legal here
@@ -92,6 +92,13 @@ func genViolation(r *PRNG, comp, inMsg bool) SItem {
 			}
 			it.LenCode = 127
 			it.Claimed = 1<<63 | (r.Uint64() >> uint(r.Range(1, 62)))
+			if r.Chance(1, 3) {
+				it.Claimed = ^uint64(0) - uint64(r.Range(0, 40)) // -1 .. -41 as a signed value
+			}
+			if inMsg && len(openLen) > 0 && openLen[0] > 0 && r.Chance(1, 2) {
+				// a "negative" length no larger in magnitude than what the open message already holds
+				it.Claimed = ^uint64(0) - uint64(r.Range(0, openLen[0]-1))
+			}
 			it.Pay = Payload{Len: r.Pick([]int{0, 0, 8, 200}), Seed: 3}
 		}
 		break
@@ -127,7 +134,14 @@ func genC04(r *PRNG, tier string) *Scenario {
 			script = append(script, SItem{Kind: "ctl", Op: r.Pick([]int{9, 10}), Data: d})
 		}
 	}
-	script = append(script, genViolation(r, comp, inMsg))
+	openLen := 0
+	if inMsg {
+		openLen = script[len(script)-1].Pay.Len
+		if script[len(script)-1].Comp > 0 {
+			openLen = 0
+		}
+	}
+	script = append(script, genViolation(r, comp, inMsg, openLen))
 	// valid traffic after the violation: none of it may be processed
 	for i := r.Range(0, 3); i > 0; i-- {
 		if r.Bool() {
